@@ -210,12 +210,29 @@ func (p *Path) appendOp(s, t *SliceV, site ssa.Instruction) Value {
 // keyEq compares a lookup key with a stored key.
 func (p *Path) keyEq(a, b Value) *Term { return p.valueEq(a, b) }
 
+// mapTouch records an access to a map the harness declared guarded (vf.GuardMap):
+// an event "map:<name>", so that vf.HeldDuring can decide the lock discipline.
+func (p *Path) mapTouch(m *MapObj) {
+	if m == nil || p.guardedMaps == nil {
+		return
+	}
+	name, ok := p.guardedMaps[m]
+	if !ok {
+		return
+	}
+	if p.guard != nil {
+		panic(mergeAbort{"guarded map access in merge region"})
+	}
+	p.events = append(p.events, Event{Name: "map:" + name})
+}
+
 func (p *Path) mapLen(m *MapV) *Term {
 	tc := p.tc
 	n := tc.Const(64, 0)
 	if m.M == nil {
 		return n
 	}
+	p.mapTouch(m.M)
 	for _, e := range m.M.Entries {
 		n = tc.BvAdd(n, tc.Ite(e.Present, tc.Const(64, 1), tc.Const(64, 0)))
 	}
@@ -232,6 +249,7 @@ func (p *Path) mapLookup(mv Value, key Value, commaOk bool, elemT types.Type) Va
 	var res Value = zero
 	found := tc.False
 	if m.M != nil {
+		p.mapTouch(m.M)
 		// entries are kept with pairwise-distinct keys (see mapUpdate), so order is irrelevant
 		for _, e := range m.M.Entries {
 			hit := tc.And(e.Present, p.keyEq(key, e.Key))
@@ -357,6 +375,7 @@ func (p *Path) mapUpdate(mv Value, key, val Value) {
 	if p.guard != nil {
 		panic(mergeAbort{"map write in merge region"})
 	}
+	p.mapTouch(m.M)
 	// keep keys pairwise distinct among present entries: update matching entries in place,
 	// add a new entry present iff no existing one matched.
 	anyHit := tc.False
@@ -384,6 +403,7 @@ func (p *Path) mapDelete(mv Value, key Value) {
 	if p.guard != nil {
 		panic(mergeAbort{"map write in merge region"})
 	}
+	p.mapTouch(m.M)
 	for _, e := range m.M.Entries {
 		hit := tc.And(e.Present, p.keyEq(key, e.Key))
 		e.Present = tc.And(e.Present, tc.Not(hit))
@@ -398,6 +418,7 @@ func (p *Path) rangeStart(x Value) Value {
 	case *MapV:
 		it := &IterV{}
 		if xv.M != nil {
+			p.mapTouch(xv.M)
 			it.M = xv.M
 			for i, e := range xv.M.Entries {
 				if p.branch(e.Present) {
